@@ -29,6 +29,7 @@ THEOREMS = [
     "C08_terminal_outcome", "C08_children_one_to_one", "C08_child_positions",
     "C08_child_priors_renormalised", "C08_renorm_is_division", "C08_expansion_records_evaluator", "C08_position_untouched",
     "C08_simulate_bounded", "C08_abs_value_le_sims", "C08_live_has_path",
+    "C08_children_are_rulebook_moves", "C08_prior_at_is_table_index",
 ]
 MODEL_TARGETS = ["model/Mcts.vo", "model/Harness.vo", "model/Lit.vo"]
 TRUSTED_BASE = [
